@@ -27,7 +27,37 @@ def canon(x):
     return _FLOAT.sub(_fl, x)
 
 
+_M_EMPTY = '"the expression is empty"'
+_M_END = '"missing expression end"'
+_M_GARBAGE = '"unexpected character inside expression"'
+_M_TAG = ('"missing end tag"', '"incomplete tag"', '"invalid end tag"', '"unexpected character"')
+
+
+def _diag_eq(kinds, cls):
+    ks = [k for k in kinds.split(",") if k]
+    has_empty = _M_EMPTY in ks
+    has_end = _M_END in ks
+    inner = [k for k in ks if k not in _M_TAG and k not in (_M_EMPTY, _M_END)]
+    if cls == "ok":
+        return not has_empty and not has_end
+    if cls == "empty":
+        return has_empty
+    if cls == "garbage":
+        return _M_GARBAGE in ks and not has_empty and not has_end
+    if cls == "missingend:1":
+        return has_end and len(inner) >= 1      # the expression parser's own diagnostic plus MissingExpressionEnd
+    if cls == "missingend:0":
+        # the input ended inside the expression: nothing but MissingExpressionEnd (and the remarks that do not make the
+        # parser fail: a bad escape in a string literal, a duplicated object key)
+        return has_end and all(k in ('"illegal escape sequence"', '"duplicated name"') for k in inner)
+    if cls == "inner:1":
+        return len(inner) >= 1 and not has_empty and not has_end
+    return False        # inner:0 is excluded by the theorem failed_binding_is_diagnosed
+
+
 def eq(impl, model):
+    if model in ("ok", "empty", "garbage") or model.startswith(("missingend:", "inner:")):
+        return _diag_eq(impl, model)
     return canon(impl) == canon(model)
 
 
